@@ -119,7 +119,7 @@ pub fn run_c06(ctx: &mut Ctx) {
     }
     let n = ctx.budget(4000, 300000);
     for i in 0..n {
-        let len = ctx.rng.random_range(0..=if i % 8 == 0 { 40 } else { 12 });
+        let len = ctx.rng.random_range(0..=if i % 500 == 3 { 600 } else if i % 8 == 0 { 40 } else { 12 });
         let mode = ctx.rng.random_range(0..10);
         let items: Vec<It> = (0..len)
             .map(|k| It {
